@@ -49,18 +49,29 @@ Definition field_map3 (f : list K -> list K) (u : list (list (list (list K)))) :
   map (fun c => tab3 nx ny nz (fun x y z => nth c (f [get3 u0 x y z; get3 u1 x y z; get3 u2 x y z]) 0)) (seq 0 3).
 
 Variable floorK : K -> Z.
-(* FlowFields.exp as SPECIFIED (convert, exponentiate, convert back) and as the code computes it (the tensor handed to
-   expv is the UNCONVERTED one; only the result is converted back) *)
+(* FlowFields.exp as SPECIFIED (convert to cube axes, exponentiate, convert back), as the code computes it
+   (flow = self.axes(cube); data = flow.tensor(); data = expv(data); instance with flow's axes; .axes(original)), and the
+   variant that exponentiates the UNCONVERTED tensor (the defect repaired in /repo 245f8d5, kept to show it is told apart) *)
 Definition exp_spec2 (A : axes) (g : gridf) (scale : K) (k : nat) (u : list (list (list K))) :=
   let ac := axes_ac A in
   field_map2 (gvecs 2 (cube_of ac) A g) (expv2 floorK ac scale false k (field_map2 (gvecs 2 A (cube_of ac) g) u)).
 Definition exp_code2 (A : axes) (g : gridf) (scale : K) (k : nat) (u : list (list (list K))) :=
+  let align_corners := axes_ac A in
+  let flow := field_map2 (gvecs 2 A (if align_corners then CUBE_CORNERS else CUBE) g) u in
+  let data := expv2 floorK align_corners scale false k flow in
+  field_map2 (gvecs 2 (if align_corners then CUBE_CORNERS else CUBE) A g) data.
+Definition exp_unconverted2 (A : axes) (g : gridf) (scale : K) (k : nat) (u : list (list (list K))) :=
   let ac := axes_ac A in
   field_map2 (gvecs 2 (cube_of ac) A g) (expv2 floorK ac scale false k u).
 Definition exp_spec3 (A : axes) (g : gridf) (scale : K) (k : nat) (u : list (list (list (list K)))) :=
   let ac := axes_ac A in
   field_map3 (gvecs 3 (cube_of ac) A g) (expv3 floorK ac scale false k (field_map3 (gvecs 3 A (cube_of ac) g) u)).
 Definition exp_code3 (A : axes) (g : gridf) (scale : K) (k : nat) (u : list (list (list (list K)))) :=
+  let align_corners := axes_ac A in
+  let flow := field_map3 (gvecs 3 A (if align_corners then CUBE_CORNERS else CUBE) g) u in
+  let data := expv3 floorK align_corners scale false k flow in
+  field_map3 (gvecs 3 (if align_corners then CUBE_CORNERS else CUBE) A g) data.
+Definition exp_unconverted3 (A : axes) (g : gridf) (scale : K) (k : nat) (u : list (list (list (list K)))) :=
   let ac := axes_ac A in
   field_map3 (gvecs 3 (cube_of ac) A g) (expv3 floorK ac scale false k u).
 
@@ -71,6 +82,27 @@ Definition warp2 (pad : padmode) (A : axes) (g : gridf) (img : list (list K)) (u
   let w0 := nth 0 w [] in let w1 := nth 1 w [] in
   let nx := zlen (hd [] w0) in let ny := zlen w0 in
   tab2 nx ny (fun x y => grid_sample2 floorK pad ac img (ncoord ac nx x + get2 w0 x y) (ncoord ac ny y + get2 w1 x y)).
+
+Definition warp3 (pad : padmode) (A : axes) (g : gridf) (img : list (list (list K))) (u : list (list (list (list K)))) : list (list (list K)) :=
+  let ac := axes_ac A in
+  let w := field_map3 (gvecs 3 A (cube_of ac) g) u in
+  let w0 := nth 0 w [] in let w1 := nth 1 w [] in let w2 := nth 2 w [] in
+  let nx := zlen (hd [] (hd [] w0)) in let ny := zlen (hd [] w0) in let nz := zlen w0 in
+  tab3 nx ny nz (fun x y z => grid_sample3 floorK pad ac img (ncoord ac nx x + get3 w0 x y z) (ncoord ac ny y + get3 w1 x y z)
+                                           (ncoord ac nz z + get3 w2 x y z)).
+
+(* FlowFields.sample(grid') of one item: ImageBatch.sample resamples every channel at the points of g' -- their cube
+   coordinates (convention ac = the batch's align_corners) mapped into the cube of g by Grid.transform_points between the
+   two grids -- then the vectors are re-expressed with respect to g' (skipped by the code for WORLD axes) *)
+Definition sample_item2 (pad : padmode) (ac : bool) (A : axes) (g g' : gridf) (nx' ny' : Z) (u : list (list (list K))) :=
+  let pos := fun x y => gpts2 2 (cube_of ac) (cube_of ac) g' g [ncoord ac nx' x; ncoord ac ny' y] in
+  let data := map (fun c => tab2 nx' ny' (fun x y => grid_sample2 floorK pad ac (nth c u []) (nth 0 (pos x y) 0) (nth 1 (pos x y) 0))) (seq 0 2) in
+  match A with WORLD => data | _ => field_map2 (gvecs2 2 A A g g') data end.
+Definition sample_item3 (pad : padmode) (ac : bool) (A : axes) (g g' : gridf) (nx' ny' nz' : Z) (u : list (list (list (list K)))) :=
+  let pos := fun x y z => gpts2 3 (cube_of ac) (cube_of ac) g' g [ncoord ac nx' x; ncoord ac ny' y; ncoord ac nz' z] in
+  let data := map (fun c => tab3 nx' ny' nz' (fun x y z =>
+                 grid_sample3 floorK pad ac (nth c u []) (nth 0 (pos x y z) 0) (nth 1 (pos x y z) 0) (nth 2 (pos x y z) 0))) (seq 0 3) in
+  match A with WORLD => data | _ => field_map3 (gvecs2 3 A A g g') data end.
 
 (* index-space versions (no normalisation at all): displacement in samples *)
 Definition compose2i (pad : padmode) (u v : list (list (list K))) : list (list (list K)) :=
